@@ -303,6 +303,9 @@ class Source:
             self.text = f.read()
         self.nocomment, self.blank = strip_comments(self.text)
 
+    def defined_macros(self):
+        return set(re.findall(r'^[ \t]*#[ \t]*define[ \t]+(\w+)', self.nocomment, re.M))
+
     @classmethod
     def get(cls, repo, rel):
         key = (repo, rel)
@@ -571,12 +574,68 @@ class Ctx:
         self.has_self = True
         self.fires = {}
         self.keep_scope = set()  # A::b combos to leave (none)
+        self.defined = set()     # macros defined for conditional compilation
 
     def fire(self, rule, n=1):
         self.fires[rule] = self.fires.get(rule, 0) + n
 
 
+def resolve_conditionals(body, defined, cname, fires):
+    """R8: evaluate #ifdef/#ifndef/#if 0/#if 1/#else/#endif inside a body the way the
+    release build does.  `defined` = set of macros #defined (uncommented) in the source
+    file or config; DEBUG_*/TRACE_*/DEVELOPMENT_CODE and others not in `defined` are
+    undefined.  Unknown directive forms abort."""
+    out = []
+    stack = []   # (active_before, this_branch_active, seen_else)
+    active = True
+    for line in body.split('\n'):
+        m = re.match(r'^\s*#\s*(ifdef|ifndef|if|else|endif|elif)\b\s*(.*?)\s*$', line)
+        if not m:
+            out.append(line if active else '')
+            continue
+        d, arg = m.group(1), m.group(2)
+        fires['R8pp'] = fires.get('R8pp', 0) + 1
+        if d in ('ifdef', 'ifndef'):
+            if not re.match(r'^\w+$', arg):
+                raise ExtractError("%s: unsupported #%s %s" % (cname, d, arg))
+            val = (arg in defined)
+            if d == 'ifndef':
+                val = not val
+            stack.append((active, val))
+            active = active and val
+        elif d == 'if':
+            if arg == '0':
+                val = False
+            elif arg == '1':
+                val = True
+            else:
+                mm = re.match(r'^defined\s*\(?\s*(\w+)\s*\)?$', arg)
+                if not mm:
+                    raise ExtractError("%s: unsupported #if %s" % (cname, arg))
+                val = mm.group(1) in defined
+            stack.append((active, val))
+            active = active and val
+        elif d == 'else':
+            if not stack:
+                raise ExtractError("%s: #else without #if" % cname)
+            before, val = stack[-1]
+            stack[-1] = (before, not val)
+            active = before and (not val)
+        elif d == 'endif':
+            if not stack:
+                raise ExtractError("%s: #endif without #if" % cname)
+            before, _ = stack.pop()
+            active = before
+        else:
+            raise ExtractError("%s: unsupported #%s" % (cname, d))
+        out.append('')
+    if stack:
+        raise ExtractError("%s: unbalanced conditionals in body" % cname)
+    return '\n'.join(out)
+
+
 def rewrite_body(body, ctx, cname):
+    body = resolve_conditionals(body, ctx.defined, cname, ctx.fires)
     toks = tokenize(body)
 
     # ---- R5 template parameter substitution
